@@ -237,7 +237,7 @@ def setup(ctx):
     from smartquery import functions
     ctx.P = SqParser()
     ctx.W = W = Watch(ctx)
-    M1 = monitors.NodeMonitor()
+    ctx.M1 = M1 = monitors.NodeMonitor()
     M1.on_enter, M1.on_exit, M1.on_raise = W.enter, W.exit, W.raised
     F = functions.FUNCTIONS
     for n in NUM_BUILTINS:
@@ -390,6 +390,7 @@ def random_number(r):
 
 def run_case(case, ctx):
     import copy
+    ctx.M1.lambdas.clear()
     if case[0] == 'repo-tests':
         # the repository's own tests as a workload for the arithmetic monitor (every arithmetic node and numeric builtin they evaluate is judged)
         from lib import repotests
